@@ -75,7 +75,7 @@ REQUIRED_CLASSES = (
        "range.r=0", "range.s=0", "range.r=n", "range.s=n", "range.r=n+1", "range.s=n+1", "range.r=2^k", "range.s=2^k",
        "range.r=r+n", "range.s=s+n", "range.both", "range.raw-too-wide",
        "badlen.string", "badlen.strings", "badder.trailing", "badder.prefix", "badder.ber-length", "badder.int-padding",
-       "baddigest.verify_digest", "baddigest.sign_digest", "baddigest.sign_digest_deterministic", "vector.A1-retry"]
+       "boundary.s=1", "boundary.s=n-1", "baddigest.verify_digest", "baddigest.sign_digest", "baddigest.sign_digest_deterministic", "vector.A1-retry"]
 )
 
 
@@ -894,11 +894,68 @@ def check_vector(case, rec):
         raise Violation("published RFC 6979 signature %s/%s/%r does not verify: %r" % (cname, h, msg, v))
 
 
+# ----------------------------------------------------------------------------------------------
+# part: boundary_s - VALID signatures whose s (resp. the mirrored n-s) sits on the edge of the allowed range 1..n-1.
+# Random signing reaches s in {1, 2, n-2, n-1} with probability ~2^-bits, so the digest is CONSTRUCTED:
+#   choose d and k, r = x(kG) mod n, wanted s  ->  e = (s*k - d*r) mod n, passed as a full-length digest (no truncation).
+
+
+def enum_boundary_s(tier, shard, nshards, rng):
+    i = 0
+    for cname in CNAMES:
+        n = order(cname)
+        for s_name in ("1", "2", "n-2", "n-1"):
+            i += 1
+            if i % nshards != shard:
+                continue
+            yield dict(curve=cname, s=s_name, x=rng.randrange(1, n), k=rng.randrange(1, n))
+
+
+def check_boundary_s(case, rec):
+    cname = case["curve"]
+    g = G(cname)
+    n = g.order
+    rec.cls("curve=" + cname)
+    rec.cls("boundary.s=" + case["s"])
+    rec.nt()
+    d, k = case["x"], case["k"]
+    s = {"1": 1, "2": 2, "n-2": n - 2, "n-1": n - 1}[case["s"]]
+    r = g.mul(k)[0] % n
+    if r == 0:
+        return
+    e = (s * k - d * r) % n
+    digest = e.to_bytes(olen(n), "big")
+    sk = signing_key(cname, d, "sha256")
+    vk = sk.verifying_key
+    for enc in ENCS:
+        try:
+            sig = sk.sign_digest(digest, sigencode=sigencode(enc, False), k=k, allow_truncate=False)
+        except Exception as ex:
+            raise Violation("%s: sign_digest with the constructed digest raised %s: %s" % (cname, type(ex).__name__, ex))
+        rr, ss = dec_sig(enc, sig, n)
+        if (rr, ss) != (r, s):
+            raise Violation("%s: sign_digest(k) returned (r, s) = (%#x, %#x); ECDSA gives s = %s = %#x" % (cname, rr, ss, case["s"], s))
+        for name, sg in (("signature with s = " + case["s"], sig), ("its mirrored form (r, n-s)", enc_sig(enc, r, n - s, n))):
+            try:
+                ok = vk.verify_digest(sg, digest, sigdecode=sigdecode(enc), allow_truncate=False)
+            except Exception as ex:
+                raise Violation("%s %s: a VALID signature (%s) is rejected by verify_digest with %s: %s  [r=%#x s=%#x n=%#x]" % (cname, enc, name, type(ex).__name__, ex, r, s, n))
+            if not ok:
+                raise Violation("%s %s: verify_digest returned a falsy value for a valid %s" % (cname, enc, name))
+    # OpenSSL agrees that it is valid (only where the full-length digest is not truncated by OpenSSL: order bit length multiple of 8)
+    if n.bit_length() % 8 == 0:
+        if not g.verify(g.mul(d), digest, r, s) or not g.verify(g.mul(d), digest, r, n - s):
+            from vlib.core import HarnessError
+
+            raise HarnessError("oracle disagreement: OpenSSL rejects the constructed signature on %s" % cname)
+
+
 def parts(tier):
     return [
         Part("vectors", check=check_vector, enum=enum_vectors, quick=(1, 0), thorough=(1, 0), exhaustive=True),
         Part("tamper", check=check_tamper, enum=enum_tamper, quick=(32, 0), thorough=(64, 0)),
         Part("grid", check=check_cell, enum=enum_grid, quick=(16, 0), thorough=(32, 0)),
+        Part("boundary_s", check=check_boundary_s, enum=enum_boundary_s, quick=(8, 0), thorough=(8, 0), exhaustive=True),
         Part("range", check=check_range, enum=enum_range, quick=(8, 0), thorough=(16, 0)),
         Part("generated", check=check_cell, strategy=strat_cell, quick=(16, 25), thorough=(16, 1200)),
     ]
